@@ -625,13 +625,17 @@ func getReferenceModificationsFromColumn(dbModel *model.DatabaseModel, table, uu
 		}
 		return getReferenceModificationsFromSet(dbModel, table, uuid, column, v, oldSet)
 	case ovsdb.OvsMap:
-		return getReferenceModificationsFromMap(dbModel, table, uuid, column, v)
+		var oldMap ovsdb.OvsMap
+		if old != nil {
+			oldMap, _ = old.(ovsdb.OvsMap)
+		}
+		return getReferenceModificationsFromMap(dbModel, table, uuid, column, v, oldMap)
 	}
 	return nil
 }
 
-func getReferenceModificationsFromMap(dbModel *model.DatabaseModel, table, uuid, column string, value ovsdb.OvsMap) database.References {
-	if len(value.GoMap) == 0 {
+func getReferenceModificationsFromMap(dbModel *model.DatabaseModel, table, uuid, column string, modify, old ovsdb.OvsMap) database.References {
+	if len(modify.GoMap) == 0 {
 		return nil
 	}
 
@@ -646,26 +650,63 @@ func getReferenceModificationsFromMap(dbModel *model.DatabaseModel, table, uuid,
 	keySpec := database.ReferenceSpec{ToTable: keyRefTable, FromTable: table, FromColumn: column, FromValue: false}
 	valueSpec := database.ReferenceSpec{ToTable: valueRefTable, FromTable: table, FromColumn: column, FromValue: true}
 
+	// A row is tracked as referencing another one once per location, no
+	// matter how many keys of the map hold it, and the modification of a map
+	// carries the new value of a key whose value changes but not the value it
+	// replaces. So the references that come and go cannot be read from the
+	// modification alone: they are those held by the map before the
+	// modification and not after it, or the other way around.
+	before := old.GoMap
+	after := make(map[interface{}]interface{}, len(before)+len(modify.GoMap))
+	for k, v := range before {
+		after[k] = v
+	}
+	for k, v := range modify.GoMap {
+		if ov, ok := before[k]; ok && ov == v {
+			delete(after, k)
+		} else {
+			after[k] = v
+		}
+	}
+
 	refs := database.References{}
-	for k, v := range value.GoMap {
-		if keyRefTable != "" {
-			switch to := k.(type) {
-			case ovsdb.UUID:
-				if _, ok := refs[keySpec]; !ok {
-					refs[keySpec] = database.Reference{to.GoUUID: []string{from}}
-				} else if _, ok := refs[keySpec][to.GoUUID]; !ok {
-					refs[keySpec][to.GoUUID] = append(refs[keySpec][to.GoUUID], from)
-				}
+	toggle := func(spec database.ReferenceSpec, to interface{}) {
+		if to, ok := to.(ovsdb.UUID); ok {
+			if _, ok := refs[spec]; !ok {
+				refs[spec] = database.Reference{}
+			}
+			refs[spec][to.GoUUID] = []string{from}
+		}
+	}
+	if keyRefTable != "" {
+		for k := range before {
+			if _, ok := after[k]; !ok {
+				toggle(keySpec, k)
 			}
 		}
-		if valueRefTable != "" {
-			switch to := v.(type) {
-			case ovsdb.UUID:
-				if _, ok := refs[valueSpec]; !ok {
-					refs[valueSpec] = database.Reference{to.GoUUID: []string{from}}
-				} else if _, ok := refs[valueSpec][to.GoUUID]; !ok {
-					refs[valueSpec][to.GoUUID] = append(refs[valueSpec][to.GoUUID], from)
-				}
+		for k := range after {
+			if _, ok := before[k]; !ok {
+				toggle(keySpec, k)
+			}
+		}
+	}
+	if valueRefTable != "" {
+		values := func(m map[interface{}]interface{}) map[interface{}]struct{} {
+			vs := make(map[interface{}]struct{}, len(m))
+			for _, v := range m {
+				vs[v] = struct{}{}
+			}
+			return vs
+		}
+		valuesBefore, valuesAfter := values(before), values(after)
+		for v := range valuesBefore {
+			if _, ok := valuesAfter[v]; !ok {
+				toggle(valueSpec, v)
+			}
+		}
+		for v := range valuesAfter {
+			if _, ok := valuesBefore[v]; !ok {
+				toggle(valueSpec, v)
 			}
 		}
 	}
